@@ -48,7 +48,8 @@ def judgeOne (p : Params) (d : Int) : String :=
     let b := backoff p (fin 1 1)
     let lo := min a b
     let hi := max a b
-    if a = -1 ∨ b = -1 then (if d = -1 ∧ a = -1 ∧ b = -1 then "ok" else "bad:model-stop")
+    -- the guard of the model (outside the documented domain `-1` can also be a clamped delay)
+    if (p.count : Int) > p.limit ∧ p.limit > -1 then (if d = -1 ∧ a = -1 ∧ b = -1 then "ok" else "bad:model-stop")
     else if d > p.max ∧ hi ≤ p.max then "bad:model-above-max"
     else if d < lo - modelTol p then "bad:model-low"
     else if d > hi + modelTol p then "bad:model-high"
